@@ -50,7 +50,17 @@ def fresh_content(i):
     return tmp.getfilter("x")
 
 
+_BN = [0]
+
+
+def nm(x):
+    """names may be given as str or as UTF-8 bytes (every method converts): every third name argument goes in as bytes"""
+    _BN[0] += 1
+    return x.encode("utf-8") if (_BN[0] % 3 == 0 and isinstance(x, str)) else x
+
+
 def apply_real(fs, op):
+    op = tuple(nm(x) if (i in (1, 2) and isinstance(x, str) and x not in ("-", "up", "down")) else x for i, x in enumerate(op))
     try:
         k = op[0]
         if k == "add":
